@@ -30,13 +30,13 @@ type c08Schema struct {
 }
 
 type c08Step struct {
-	S       int    `json:"s"`
-	I       int    `json:"i"`
-	Collect bool   `json:"collect,omitempty"`
+	S       int  `json:"s"`
+	I       int  `json:"i"`
+	Collect bool `json:"collect,omitempty"`
 	// Sanitize: with Collect: hand the result back through Sanitize{Map,List}AndCollect; the messages returned must be
 	// the ones the result carried
-	Sanitize bool `json:"sanitize,omitempty"`
-	Fmt     string `json:"fmt,omitempty"` // WithIssueFormatter stamping this marker
+	Sanitize bool   `json:"sanitize,omitempty"`
+	Fmt      string `json:"fmt,omitempty"` // WithIssueFormatter stamping this marker
 }
 
 type c08Case struct {
